@@ -34,13 +34,13 @@ type c05cCase struct {
 }
 
 type yieldStrategy struct {
-	inner core.Strategy
-	sc    *sched
-	after func(n int) // called right after the inner SetLimit(n) returned
-	refused func()    // called right after the inner strategy refused a request
-	stall yieldList
-	mu    sync.Mutex
-	k     int
+	inner   core.Strategy
+	sc      *sched
+	after   func(n int) // called right after the inner SetLimit(n) returned
+	refused func()      // called right after the inner strategy refused a request
+	stall   yieldList
+	mu      sync.Mutex
+	k       int
 }
 
 func (y *yieldStrategy) TryAcquire(ctx context.Context) (core.StrategyToken, bool) {
